@@ -22,6 +22,9 @@ THEOREMS = [
     "Wild.StrMerge.split_invisible",
     "Wild.ProtoMerge.bucket_order",
     "Wild.ProtoLayout.terminal_is_closure",
+    "Wild.InPlace.Chain.cover",
+    "Wild.InPlace.tiles_chain",
+    "Wild.InPlace.inplace_covers_all",
 ]
 LEVEL = "proof"
 TECHNIQUE = ("Lean 4 theorems: every modelled parallel combination point is a function of its ORDERED inputs (bucket fill, undefined-symbol "
